@@ -703,7 +703,8 @@ def r08c(ctx, rep):
     rep.rule("R08c", "derived operations are built from the primitive ones: Number::modulo is expressed through the Rem and Add "
              "implementations of &Number and the comparisons of Number (so it inherits their per-representation treatment) and "
              "contains no representation-specific arithmetic of its own; the divisor is added to the remainder exactly once, and "
-             "only under a sign test of remainder and divisor — where the signs differ the sum is smaller in magnitude than both, "
+             "only under a sign test of remainder and divisor and a zero test of the remainder (a zero remainder stays zero whatever "
+             "the divisor's sign) — where the signs differ the sum is smaller in magnitude than both, "
              "whereas an unconditional (r + b) leaves the range of a fixed-width representation and comes back inexact "
              "((modulo 1 2147483647/1) was 1.0); the owned operator impls delegate to the &Number impls.")
     f = need(rep, "R08c", facts, "marwood::number::Number::modulo")
@@ -719,12 +720,13 @@ def r08c(ctx, rep):
         guarded = False
         if len(adds) == 1:
             gs = shapes.guard_shapes(f, adds[0][0], None, 4)
-            guarded = any("PartialOrd" in g for g in gs)
+            # a sign comparison and a zero test of the remainder: a zero remainder has no sign to differ
+            guarded = any("PartialOrd" in g for g in gs) and any(re.search(r"PartialEq>?::(ne|eq)\(", g) for g in gs)
         if rems >= 1 and len(adds) == 1 and not own and not lo and guarded:
             rep.ok("R08c", key, "modulo is a rem b, plus b under a sign comparison, over the &Number operators", [f.span])
         else:
             rep.fail("R08c", key, "modulo is not (a rem b), plus b once under a sign test, over the &Number operators (rem x%d, add x%d, "
-                     "add guarded by an order comparison: %s, own representation match: %s, float conversions: %d): an unconditional "
+                     "add guarded by an order comparison and a zero test: %s, own representation match: %s, float conversions: %d): an unconditional "
                      "r + b overflows the representation of an integer carried as a rational and answers inexactly; a fix-up written "
                      "per representation must treat every pair itself" % (rems, len(adds), guarded, bool(own), len(lo)), [f.span])
     for op in ("Add", "Sub", "Mul", "Div", "Rem"):
